@@ -20,8 +20,10 @@ def _named(name):
 JOBS = {op: _named(op) for op in OPS}
 
 
-def make_slow_manager(a, users, ops=OPS, delay=None):
-    """delay=None: suspend on an executor job (environment event); delay=seconds: sleep that long (virtual time)"""
+def make_slow_manager(a, users, ops=OPS, delay=None, fail=None):
+    """delay=None: suspend on an executor job (environment event); delay=seconds: sleep that long (virtual time);
+    fail={"get_user": n}: the n-th call of that operation raises RuntimeError after its suspension (a database error)"""
+    fail = dict(fail or {})
     class SlowUserManager(a.MemoryUserManager):
         def __init__(self, users):
             super().__init__(users)
@@ -29,8 +31,9 @@ def make_slow_manager(a, users, ops=OPS, delay=None):
             self.cancelled_in = collections.Counter()
 
         async def _suspend(self, op):
-            if op in ops:
+            if op in ops or op in fail:
                 self.suspensions[op] += 1
+            if op in ops:
                 try:
                     if delay is not None:
                         await asyncio.sleep(delay)
@@ -39,6 +42,8 @@ def make_slow_manager(a, users, ops=OPS, delay=None):
                 except asyncio.CancelledError:
                     self.cancelled_in[op] += 1
                     raise
+            if fail.get(op) is not None and self.suspensions[op] == fail[op]:
+                raise RuntimeError(f"user database unavailable ({op})")
 
         async def get_user(self, login):
             await self._suspend("get_user")
